@@ -19,6 +19,7 @@ PURE = {
     "std::cmp::Ord::min": "min",
     "std::cmp::Ord::max": "max",
     "std::cmp::Ord::cmp": "cmp",
+    "std::cmp::Ord::clamp": "clamp",
     "std::cmp::min": "min",
     "std::cmp::max": "max",
     "std::num::saturating_sub": "saturating_sub",
@@ -643,6 +644,14 @@ class Evaluator:
             return payload_shallow(args[0])
         if model == "ident" and args:
             return args[0]
+        if model == "clamp" and len(args) == 3:
+            # x.clamp(lo, hi) = min(max(x, lo), hi)  (panics if lo > hi; with lo = 0 on unsigned values: min(x, hi))
+            x, lo, hi = args
+            inner = x if lo in (("int", 0),) else ("call", "max", (x, lo))
+            return ("call", "min", (inner, hi))
+        if model == "Option::unwrap_or" and len(args) == 2 and args[1] == ("int", 0) and args[0][0] == "call" \
+                and args[0][1] == "checked_sub" and len(args[0][2]) == 2:
+            return ("call", "saturating_sub", args[0][2])  # a.checked_sub(b).unwrap_or(0)
         if model == "is_empty" and args:
             return ("call", "eq", (("call", "len", (args[0],)), ("int", 0)))
         if model == "into" or model == "from":
